@@ -1105,16 +1105,7 @@ func runC04(c *Ctx, pr *PropertyRun) {
 	tbl := NewRule("C04", "C04.table", "precondition truth table of checkConditionalMatches and ConditionalMatch.MatchETag (E2)")
 	tbl.Exhaustive = true
 	pr.Rules = append(pr.Rules, tbl)
-	unquote := func(in *Interp, site ssa.CallInstruction, name string, args []Val) (Val, bool) {
-		if name == "strconv.Unquote" {
-			k := keyOf(args[0])
-			if in.truth(LazyBool{"malformed(" + k + ")"}) {
-				return Tuple{[]Val{kStr(""), in.mkErr(&ErrObj{Kind: "ext", Msg: kStr("invalid syntax"), Key: "unquote-error"})}}, true
-			}
-			return Tuple{[]Val{SymStr{Key: "unquoted(" + k + ")"}, kNil}}, true
-		}
-		return nil, false
-	}
+	unquote := unquoteModel
 	headerVerdict := func(env *OracleEnv, h string, present bool) string { // allowed | 412 | 400, for If-Match semantics "matches"
 		// returns: "unset", "match", "nomatch", "malformed"
 		if env.Eq(S(h), K("")) {
@@ -1185,40 +1176,7 @@ func runC04(c *Ctx, pr *PropertyRun) {
 			tbl.Unresolved("the precondition table has fewer than 15 rows")
 		}
 	}
-	if fn := p.MustFunc(tbl, pkgWebdav, "(ConditionalMatch).MatchETag"); fn != nil {
-		spec := DTXSpec{Name: "ConditionalMatch.MatchETag", Entry: fn,
-			Setup: func(in *Interp) { in.Models = append(in.Models, unquote) },
-			Args:  func(in *Interp) []Val { return []Val{SymStr{Key: "val"}, SymStr{Key: "etag"}} },
-			Observe: func(in *Interp, res Val, pan *panicOutcome) string {
-				if pan != nil {
-					return "panic"
-				}
-				t := res.(Tuple)
-				if !isNilVal(t.E[1]) {
-					return "error"
-				}
-				return describeVal(in, t.E[0])
-			},
-			Oracle: func(env *OracleEnv) ([]string, bool) {
-				// "true exactly for * or an equal tag against an existing resource"
-				if env.Eq(S("etag"), K("")) {
-					return []string{"false"}, true
-				}
-				if env.Eq(S("val"), K("*")) {
-					return []string{"true"}, true
-				}
-				if env.Bool("malformed(val)") {
-					return []string{"error"}, true
-				}
-				if env.Eq(S("unquoted(val)"), S("etag")) {
-					return []string{"true"}, true
-				}
-				return []string{"false"}, true
-			}}
-		res := runDTX(c, spec)
-		reportDTX(c, tbl, spec, res, "MatchETag")
-		tbl.Role("decision-table")
-	}
+	matchETagTable(c, tbl, unquote)
 
 	preconditionFirstRule(c, pr, "C04")
 
@@ -1486,4 +1444,58 @@ func runC04(c *Ctx, pr *PropertyRun) {
 
 	// the quoting pair itself (shared with C16.pairs)
 	c16Pairs(c, pr, "C04", func(what string) bool { return strings.HasPrefix(what, "entity tag") })
+}
+
+// matchETagTable: the public ConditionalMatch.MatchETag over {*, a quoted
+// string equal to / different from the tag, not a quoted string} x {resource
+// present, absent} (shared by C04.table and C16.conditional-match).
+func matchETagTable(c *Ctx, r *RuleResult, unquote ModelFn) {
+	p := c.P
+	if fn := p.MustFunc(r, pkgWebdav, "(ConditionalMatch).MatchETag"); fn != nil {
+		spec := DTXSpec{Name: "ConditionalMatch.MatchETag", Entry: fn,
+			Setup: func(in *Interp) { in.Models = append(in.Models, unquote) },
+			Args:  func(in *Interp) []Val { return []Val{SymStr{Key: "val"}, SymStr{Key: "etag"}} },
+			Observe: func(in *Interp, res Val, pan *panicOutcome) string {
+				if pan != nil {
+					return "panic"
+				}
+				t := res.(Tuple)
+				if !isNilVal(t.E[1]) {
+					return "error"
+				}
+				return describeVal(in, t.E[0])
+			},
+			Oracle: func(env *OracleEnv) ([]string, bool) {
+				// "true exactly for * or an equal tag against an existing resource"
+				if env.Eq(S("etag"), K("")) {
+					return []string{"false"}, true
+				}
+				if env.Eq(S("val"), K("*")) {
+					return []string{"true"}, true
+				}
+				if env.Bool("malformed(val)") {
+					return []string{"error"}, true
+				}
+				if env.Eq(S("unquoted(val)"), S("etag")) {
+					return []string{"true"}, true
+				}
+				return []string{"false"}, true
+			}}
+		res := runDTX(c, spec)
+		reportDTX(c, r, spec, res, "MatchETag")
+		r.Role("decision-table")
+	}
+
+}
+
+// unquoteModel: strconv.Unquote fails, or yields an opaque string.
+func unquoteModel(in *Interp, site ssa.CallInstruction, name string, args []Val) (Val, bool) {
+	if name == "strconv.Unquote" {
+		k := keyOf(args[0])
+		if in.truth(LazyBool{"malformed(" + k + ")"}) {
+			return Tuple{[]Val{kStr(""), in.mkErr(&ErrObj{Kind: "ext", Msg: kStr("invalid syntax"), Key: "unquote-error"})}}, true
+		}
+		return Tuple{[]Val{SymStr{Key: "unquoted(" + k + ")"}, kNil}}, true
+	}
+	return nil, false
 }
